@@ -46,11 +46,11 @@ def corpus():
 
 def generate(rng, tier):
     n = 500 if tier == "quick" else 30000
-    return [g.gen_runs(rng, tier, cleanups=("n", "n", "n", "l2", "b1.1"), preseed=0.3, sfxs=(b"log", b"log", b"trc", b"x_r5", b"log.txt", None)) for _ in range(n)]
+    return [g.gen_runs(rng, tier, cleanups=("n", "n", "n", "l2", "b1.1"), preseed=0.3, sfxs=(b"log", b"log", b"trc", b"x_r5", b"log.txt", b"restart-5", None)) for _ in range(n)]
 
 
 def search(rng, tier, disagreeing):
-    return [g.gen_runs(rng, "thorough", cleanups=("n", "n", "l2", "b1.1"), preseed=0.3, sfxs=(b"log", b"trc", b"x_r5", b"log.txt", None)) for _ in range(1500)]
+    return [g.gen_runs(rng, "thorough", cleanups=("n", "n", "l2", "b1.1"), preseed=0.3, sfxs=(b"log", b"trc", b"x_r5", b"log.txt", b"restart-5", None)) for _ in range(1500)]
 
 
 def classify(body, impl, verdict):
